@@ -221,15 +221,27 @@ def global_digest():
 
 # ------------------------------------------------------------ world
 
+def obj_fingerprint(m):
+    from rdkit import Chem
+    return (Chem.MolToSmiles(m), tuple(str(b.GetBondType()) for b in m.GetBonds()),
+            tuple(a.GetIsAromatic() for a in m.GetAtoms()),
+            tuple(tuple(sorted(a.GetPropsAsDict(includePrivate=False, includeComputed=False)))
+                  for a in m.GetAtoms()))
+
+
 class World(object):
     def __init__(self):
+        self.objs = {}       # molecule objects owned by the "caller"
+        self.obj_fp = {}
         self.libs = []       # dict(obj, ident(tuple), family, last(molecule), dirty_after=set())
         self.decs = []       # dict(lib, m, family, desc)
         self.ests = []       # dict(obj, lib, dec, stale(bool), ident, merged_after(bool))
 
     def digest(self):
         return (tuple((l['ident'], lib_digest(l['obj'])) for l in self.libs),
-                tuple((d['lib'], d['m']) for d in self.decs),
+                tuple((d['lib'], d['m'], bool(d.get('obj'))) for d in self.decs),
+                tuple(sorted((m, obj_fingerprint(o) == self.obj_fp[m])
+                             for m, o in self.objs.items())),
                 # the harness-side facts the oracle uses (which molecule the
                 # estimate is FOR, whether it was created stale, whether its
                 # library was merged into afterwards) are part of the state:
@@ -281,6 +293,24 @@ def _apply(world, ev):
         L['last'] = ev[2]
         world.decs.append(dict(lib=ev[1], m=ev[2], family=L['family'], desc=d))
         return obs
+    if kind == 'deco':
+        # the SAME hydrogen-explicit molecule object every time it is used
+        from rdkit import Chem
+        L = world.libs[ev[1]]
+        if ev[2] not in world.objs:
+            world.objs[ev[2]] = Chem.AddHs(Chem.MolFromSmiles(ev[2]))
+            world.obj_fp[ev[2]] = obj_fingerprint(world.objs[ev[2]])
+        obj = world.objs[ev[2]]
+        try:
+            d = L['obj'].GetDescriptors(obj)
+            obs = ['ok', sorted((str(k), r12(v)) for k, v in d.items())]
+        except Exception as e:      # noqa
+            d, obs = None, ['exc', type(e).__name__]
+        L['last'] = '<object %s>' % ev[2]
+        world.decs.append(dict(lib=ev[1], m=ev[2], family=L['family'], desc=d, obj=True))
+        obs.append('object-unchanged' if obj_fingerprint(obj) == world.obj_fp[ev[2]]
+                   else 'OBJECT-MODIFIED')
+        return obs
     if kind == 'est':
         L = world.libs[ev[1]]
         D = world.decs[ev[2]]
@@ -290,8 +320,9 @@ def _apply(world, ev):
         except Exception as ex:      # noqa
             e, obs = None, ['exc', type(ex).__name__]
         world.ests.append(dict(obj=e, lib=ev[1], dec=ev[2], ident=L['ident'],
-                               stale=(L['last'] != D['m']), merged_after=False,
-                               m=D['m']))
+                               stale=(L['last'] != (('<object %s>' % D['m']) if D.get('obj')
+                                                    else D['m'])),
+                               merged_after=False, m=D['m']))
         return obs
     if kind == 'merge':
         tgt, src = world.libs[ev[1]], world.libs[ev[2]]
@@ -342,6 +373,8 @@ def enabled(world, universe):
         if len(world.decs) < MAXDECS:
             for m in mols.get(L['family'], []):
                 evs.append(('dec', i, m))
+            for m in mols.get(L['family'], [])[:1]:
+                evs.append(('deco', i, m))
         if len(world.ests) < MAXESTS:
             for k, D in enumerate(world.decs):
                 if D['family'] == L['family'] and D['desc'] is not None:
@@ -444,6 +477,16 @@ def check_observation(R, world, ev, obs, hist, universe_tag):
                         'fresh process gives %r' % (hist, ev[2], obs, base), wit)
             return 'differs'
         return 'same'
+    if kind == 'deco':
+        L = world.libs[ev[1]]
+        base = baseline(L['ident'][:1], ev[2])['dec'] + ['object-unchanged']
+        if obs != base:
+            R.violation('object-decomposition-differs' if obs[-1] == 'object-unchanged'
+                        else 'callers-object-modified',
+                        'after %s, decomposing the (same) molecule object for %s gave %r; '
+                        'a fresh process gives %r for its SMILES' % (hist, ev[2], obs, base), wit)
+            return 'differs'
+        return 'same'
     if kind == 'dump':
         L = world.libs[ev[1]]
         base = baseline(L['ident'])['dump']
@@ -521,7 +564,7 @@ def step(R, hist, ev, universe, tag):
                             'changed library %d' % (hist, ev, i),
                             dict(kind='hist', history=[list(e) for e in hist],
                                  event=list(ev), universe=tag))
-    if ev[0] in ('dec', 'est'):
+    if ev[0] in ('dec', 'deco', 'est'):
         for i, l in enumerate(w.libs):
             a, b = lib_digest(l['obj']), others_before[i]
             # the remembered molecule (4th component) may change on the
@@ -704,12 +747,46 @@ def run_cross(R, L1, L2, tier):
     R.sample(dict(cross=[L1, L2], molecules=MIXED), limit=1)
 
 
+def run_blank(R):
+    """Libraries made with the constructor directly: what one of them absorbs
+    by Update() must not appear in the next one (shared default arguments)."""
+    import pgradd.ThermoChem   # noqa
+    from pgradd.GroupAdd.Library import GroupLibrary
+    for L in ('synB', 'synA'):
+        w = World()
+        apply(w, ('load', L))
+        src = w.libs[0]['obj']
+        g0 = global_digest()
+        first = GroupLibrary(src.scheme)
+        blank0 = lib_digest(first)
+        first.Update(src)
+        second = GroupLibrary(src.scheme)
+        R.evals += 2
+        R.nontrivial += 2
+        R.traces += 1
+        R.transitions += 3
+        wit = dict(kind='blank', lib=L)
+        if lib_digest(second) != blank0:
+            R.outcomes['blank:contaminated'] += 1
+            R.violation('new-library-not-empty', 'after GroupLibrary(scheme).Update(%s), '
+                        'a NEW GroupLibrary(scheme) is not empty: %d groups, uncertainty '
+                        'keys %r' % (L, len(second), sorted(second.uq_contents)), wit)
+        elif global_digest() != g0:
+            R.outcomes['blank:process-state-changed'] += 1
+            R.violation('update-changed-process-state', 'GroupLibrary(scheme).Update(%s) '
+                        'changed process-wide state of the package (module globals, class '
+                        'attributes or default arguments)' % L, wit)
+        else:
+            R.outcomes['blank:clean'] += 1
+
+
 def shards(tier, seed):
     base = syn_dir()
     table = precompute(tier)
     out = [('bfs',) + u + (base, table) for u in universes(tier)]
     out += [('cross', 'synA', 'BensonGA', base, table),
-            ('cross', 'BensonGA', 'synA', base, table)]
+            ('cross', 'BensonGA', 'synA', base, table),
+            ('blank', base, table)]
     out += [('seq', ('load', 'synA'), base, table), ('seq', ('load', 'synB'), base, table)]
     return out
 
@@ -733,6 +810,8 @@ def run_shard(shard, tier):
         run_universe(R, shard[1], tuple(shard[2]), shard[3], shard[4], tier)
     elif shard[0] == 'cross':
         run_cross(R, shard[1], shard[2], tier)
+    elif shard[0] == 'blank':
+        run_blank(R)
     else:
         run_stateless(R, tuple(shard[1]), tier)
     R.extra['max_fresh_process_baselines'] = len(_BASE)
@@ -742,6 +821,10 @@ def run_shard(shard, tier):
 def replay(w):
     R = Result()
     syn_dir()
+    if w.get('kind') == 'blank':
+        run_blank(R)
+        return dict(violates=bool(R.violations), detail='; '.join(
+            v['msg'] for v in R.violations) or 'holds', _cleanup=cleanup())
     hist = tuple(tuple(e) for e in w['history'])
     ev = tuple(w['event'])
     world = rebuild(hist)
